@@ -32,7 +32,7 @@ def check_case(res, t, c, sc, label):
     """oracle for one scenario transcript: listing and extracted bytes vs the generator"""
     if t.crash or t.hang:
         res.violation("crash/hang on a well-formed cabinet (%s): %s" % (label, (t.crash or "hang")[-300:]), sc.text(), key="crash"); return False
-    ok = True; why = ""
+    ok = True; why = ""; key = "c01-cab"
     opens = [o for o in t.ops if o.name == "cab_open"]
     if not opens or opens[0].kv.get("ok") != "1": ok = False; why = "open failed %s" % (opens[0].kv if opens else "")
     exs = [o for o in t.ops if o.name == "cab_extract"]
@@ -55,9 +55,12 @@ def check_case(res, t, c, sc, label):
         for o, mi in zip(exs, c.exp_order):
             m = c.members[mi]
             if o.kv.get("st") != "0" or o.kv.get("err") != "0" or (o.out or "") != m.data.hex():
-                ok = False; why = "member %d (%s, %d bytes): st=%s err=%s outlen=%s" % (mi, m.name, m.length, o.kv.get("st"), o.kv.get("err"), o.outlen); break
+                ok = False; why = "member %d (%s, %d bytes): st=%s err=%s outlen=%s" % (mi, m.name, m.length, o.kv.get("st"), o.kv.get("err"), o.outlen)
+                fol = next(f for f in c.folders if m in f.members)
+                if fol.method[0] == "qtm" and fol.method[1] < 15 and o.kv.get("st") == "11": key = "qtm-small-window-wrap"
+                break
     if not ok:
-        res.violation("well-formed cabinet (%s): %s" % (label, why[:300]), sc.text(), key="c01-cab")
+        if not res.violation("well-formed cabinet (%s): %s" % (label, why[:300]), sc.text(), key=key): return True
     return ok
 
 def cab_scenarios(rng, tier):
